@@ -15,7 +15,7 @@ CHECKS = {
         "real-analytic model (blocks bare and inside a solver, integer-typed arguments included). The interface half (place and wire by "
         "pin name, solve, str, print_S, show_free_pins, inspect for int and float arguments, every documented block) is an exhaustive "
         "enumeration of a finite table — finite checking, labelled so."
-        " Blocks added after seeded changes were missed: BeamSplitter with explicit transmission t (boundary values) and UserWaveguide with two modes of different key sets. Coefficients are looked up BY PIN NAME in the documented pin order (not only as a raw matrix); UserWaveguide is sampled with modes declared in unsorted order; BeamSplitter with a transmission argument is covered.",
+        " Blocks added after seeded changes were missed: BeamSplitter with explicit transmission t (boundary values) and UserWaveguide with two modes of different key sets. Coefficients are looked up BY PIN NAME in the documented pin order (not only as a raw matrix); UserWaveguide is sampled with modes declared in unsorted order; BeamSplitter with a transmission argument is covered. A phase shifter whose shift is given only through the constructor default (renamed parameter, nothing passed at solve time) is sampled too.",
    note="Trusted: Coq kernel; Coq.Reals axioms (ClassicalDedekindReals.sig_forall_dec, sig_not_dec, functional_extensionality_dep, "
         "Classical_Prop.classic) and what Interval/Flocq/Coquelicot add (listed per theorem and per generated lemma in the evidence); "
         "hand-written model Blocks.v; harness sampling. User index functions enter as their value. Follows the fixed code (F22-F24). The "
@@ -30,7 +30,7 @@ CHECKS = {
         "Pin object (results must be identical) and compares get_output, every row of get_full_output, get_data (T, Amplitude), get_A "
         "and get_T in amplitude and power mode with the model. dB = 10 log10 T and phase = arg A are real-analytic: tied by interval "
         "arithmetic in the same run."
-        " The full sweep table get_full_data (what export writes) is read too, with sweeps that start at a symmetric point; dark pin pairs (T = 0, dB = -inf) are included; dB and phase are tied by one generated interval lemma per sample. The solved model carries a swept and a length-1 parameter; the parameter columns of every table are checked (broadcast), also after the caller has overwritten the arrays it passed in.",
+        " The full sweep table get_full_data (what export writes) is read too, with sweeps that start at a symmetric point; dark pin pairs (T = 0, dB = -inf) are included; dB and phase are tied by one generated interval lemma per sample. The solved model carries a swept and a length-1 parameter; the parameter columns of every table are checked (broadcast), also after the caller has overwritten the arrays it passed in. After the first read-outs two names of the result are swapped by pin_mapping: every accessor (by name and by Pin object) must follow the new labels.",
    note="Trusted: Coq kernel + vm_compute; Bignums primitives for the executed instance; model Readout.v tied by sampled correspondence; "
         "pandas exercised, not verified; for dB/phase the Coq.Reals axioms and Interval. Follows the fixed code (F19).",
    technique="Coq proof (linearity/definitional laws) + vm_compute correspondence; interval lemmas for dB and phase", design="§5 C15"),
@@ -72,7 +72,7 @@ CHECKS = {
         "probe/spy leaves are swept over random mixes of scalar / length-1 / length-n values and malformed mixes, every sweep index compared "
         "with the model; (ii) EVERY bare library block (also inside a solver, and mode-expanded) is swept over each of its parameters and "
         "must equal bit-for-bit the stack of its scalar solves."
-        " Block table extended with UserWaveguide variants whose modes have different key sets, FPRGaussian with a callable slab index, and fine sweeps (values a few ppm apart, exact repeats). A third stream assigns SEVERAL parameters of every bare block at once (its own and ones it ignores) as scalar / length-1 / length-n mixes incl. inconsistent lengths; the model broadcasts and looks each point up in the table of /repo's scalar solves. On every run harness/translate_sweep.py also translates the CURRENT source of the sweep bookkeeping (Solver.solve: common length + broadcast; Model.solve: common length + the dictionary create_S sees at every point) to Gallina and coq/templates/SweepSrcProof.v proves it equal to Sweep.normalise / Sweep.sweep_solve for all assignments with distinct names (solver_normalise_src_is_normalise, model_sweep_src_is_sweep_solve; closed under the global context).",
+        " Block table extended with UserWaveguide variants whose modes have different key sets, FPRGaussian with a callable slab index, and fine sweeps (values a few ppm apart, exact repeats). A third stream assigns SEVERAL parameters of every bare block at once (its own and ones it ignores) as scalar / length-1 / length-n mixes incl. inconsistent lengths; the model broadcasts and looks each point up in the table of /repo's scalar solves. On every run harness/translate_sweep.py also translates the CURRENT source of the sweep bookkeeping (Solver.solve: common length + broadcast; Model.solve: common length + the dictionary create_S sees at every point) to Gallina and coq/templates/SweepSrcProof.v proves it equal to Sweep.normalise / Sweep.sweep_solve for all assignments with distinct names (solver_normalise_src_is_normalise, model_sweep_src_is_sweep_solve; closed under the global context). Sweeps use complex parameter values (inside a solver and bare); the thermal phase shifter's index function depends on every documented argument (wl, R, w, pol) and each is swept.",
    note="Trusted: Coq kernel + vm_compute; models Sweep.v/Params.v tied by sampled correspondence; for the block half the scalar solve of "
         "/repo is the oracle (its physics is C09's subject). Names re-defined by add_param at the solved level are not swept (they are no "
         "longer parameters). Follows the fixed code (F02, F27).",
@@ -102,7 +102,7 @@ CHECKS = {
         "as-found sequential loop is formally refuted (rename_asfound_refuted, swap witness = finding F03). The tie builds hierarchies of "
         "solvers whose leaves are probes (transmission = parameter value), random injective renamings incl. swaps/chains in every "
         "listing order, defaults at all levels before/after add_param, explicit values, and compares the value each leaf used."
-        " A second stream places the SAME model / solver object twice under different renamings and replaces the defaults after add_param (set_default_params), so that the definition defaults are reached. On every run harness/translate_params.py also translates the CURRENT source of Structure.update_params, Model.update_params, Solver.update_params, Solver.add_param and the default collection of Solver.add_structure to Gallina (symbolic execution over the ast, fail-closed) and coq/templates/ParamsSrcProof.v proves each equal, under every name and for all dictionaries with distinct keys, to rename_shield / model_update / solver_update / the node_defaults step / collect_defaults (5 theorems, closed). Streams now include add_param by introspection, several definitions per solver and constant (argument-less) functions (found F30).",
+        " A second stream places the SAME model / solver object twice under different renamings and replaces the defaults after add_param (set_default_params), so that the definition defaults are reached. On every run harness/translate_params.py also translates the CURRENT source of Structure.update_params, Model.update_params, Solver.update_params, Solver.add_param and the default collection of Solver.add_structure to Gallina (symbolic execution over the ast, fail-closed) and coq/templates/ParamsSrcProof.v proves each equal, under every name and for all dictionaries with distinct keys, to rename_shield / model_update / solver_update / the node_defaults step / collect_defaults (5 theorems, closed). Streams now include add_param by introspection, several definitions per solver and constant (argument-less) functions (found F30). Half of the hierarchies apply their late solver defaults through Solver.set_param after the solver's with-block has been left.",
    note="Trusted: Coq kernel + vm_compute; model Params.v (incl. the recursive delivery through hierarchies, which is modelled and tied "
         "by correspondence; the declarative 'resolve' specification for whole hierarchies is not separately proved); harness. Follows the "
         "fixed code (F03, F04).",
@@ -131,7 +131,7 @@ CHECKS = {
         "overlapping mode lists; sub-solvers exposing Pin(base, mode)) through connect_all and compares with the model's solve of the "
         "multi-mode netlist AND with independent per-mode solves and zero cross-mode coefficients; runs the queries on models, results, "
         "structures and placed sub-solvers."
-        " The expansion stream includes blocks that refill one persistent buffer (CWA, FPR). Nested solvers and queries also use mode-major pin layouts (a_TE, b_TE, a_TM, b_TM). The expansion stream covers EVERY library block (constructors of the C04 table; found F31).",
+        " The expansion stream includes blocks that refill one persistent buffer (CWA, FPR). Nested solvers and queries also use mode-major pin layouts (a_TE, b_TE, a_TM, b_TM). The expansion stream covers EVERY library block (constructors of the C04 table; found F31). Query cases use base names containing underscores (in_1, port_a1, o_1_2) and query their prefixes too.",
    note="Trusted: Coq kernel + vm_compute; Bignums primitives for the executed instance; model Modes.v tied by sampled correspondence; "
         "harness. The circuit-level statement is proved for circuits whose blocks all carry the same mode list (every link replicated per "
         "mode); partially overlapping mode lists are covered by the per-mode comparison in Coq (tie), not by a theorem. Follows the fixed code (F17, F18). Expansion of an "
@@ -147,7 +147,7 @@ CHECKS = {
         "mapped pins, renamed, and changes no kept coefficient (mode_select_ok); |z|^2 and arg z determine z (polar_roundtrip, over the "
         "reals). The tie exports hand-made and really solved sweeps with /repo, loads them with the real loader and compares pins and "
         "every coefficient at every exported point and at in-between values with the model."
-        " Two-parameter files are also evaluated with the keywords in the reverse of the file's column order. Mode mappings include swaps and chains of mode names (new names overlapping old ones).",
+        " Two-parameter files are also evaluated with the keywords in the reverse of the file's column order. Mode mappings include swaps and chains of mode names (new names overlapping old ones). Two-parameter files include fine scans (the first parameter moves by a few ppm).",
    note="Trusted: Coq kernel + vm_compute; Bignums primitives; Coq.Reals axioms for polar_roundtrip only; model InPulse.v/Interp.v tied by "
         "sampled correspondence; YAML/CSV, decimal printing and parsing, numpy and scipy interpolators are modelled (enc/dec parameters, "
         "interp1) not verified — their joint effect is what the tie observes. Two-parameter files: grid points only. Follows the fixed "
@@ -162,7 +162,7 @@ CHECKS = {
         "reports the network equations of the original circuit (prune_same_matrix, via C02). Closed under the global context. The tie "
         "inserts empty models and dead solvers (nested, shared between placements) at random places and depths, calls prune() on /repo "
         "and compares the returned flag, the tree of remaining structures at every level, and solve() after prune with the model."
-        " Dead leaves include pin-less models that carry a matrix and unmapped solved results; after prune the free pins of every surviving level are compared with the unconnected ports of the surviving components.",
+        " Dead leaves include pin-less models that carry a matrix and unmapped solved results; after prune the free pins of every surviving level are compared with the unconnected ports of the surviving components. Dead branches that still own connected pins (a sub-solver wired while it had pins, emptied before prune()) are generated too; a prune() that raises is reported with the hierarchy as replay.",
    note="Trusted: Coq kernel + vm_compute; Bignums primitives for the executed instance; models Prune.v/Hier.v tied by sampled "
         "correspondence; harness. prune_same_matrix assumes dead sub-solvers hold no connections (nothing can be wired to a pin-less "
         "structure) and is conditional on the model returning Ok.",
@@ -175,7 +175,7 @@ CHECKS = {
         "the global context. The tie executes random such programs on /repo with every module-level helper (put, putpin, Pin.put, "
         "connect, connect_all, raise_pins, add_param, set/update_default_params, add_structure_to_monitors, solve) and compares the kind "
         "of exit, lekkersim.sol_list afterwards and, for each helper call, which solver actually changed."
-        " All solvers of a program share one parameter name, so a helper that touches an enclosing solver's entry is seen. Programs also call Structure.raise_pins on placed models and placed sub-solvers; all solvers of a program own one common parameter name so that a helper reaching a wrong solver is visible. put is also exercised with a source pin and a target (Model.put and Solver.put by name); a stray lk.connect on an enclosing solver's free pins must be refused and change no solver.",
+        " All solvers of a program share one parameter name, so a helper that touches an enclosing solver's entry is seen. Programs also call Structure.raise_pins on placed models and placed sub-solvers; all solvers of a program own one common parameter name so that a helper reaching a wrong solver is visible. put is also exercised with a source pin and a target (Model.put and Solver.put by name); a stray lk.connect on an enclosing solver's free pins must be refused and change no solver. The solver of an enclosing, still open with-block may be placed into the innermost one (the placement belongs to the innermost solver).",
    note="Trusted: Coq kernel + vm_compute; CPython's with/try semantics as modelled; model Stack.v tied by sampled correspondence; harness "
         "(the changed solver is detected by fingerprinting all solvers before/after each helper).",
    technique="Coq proof by induction over programs + vm_compute correspondence of executed with-block programs", design="§5 C17"),
@@ -226,7 +226,7 @@ CHECKS = {
         "pins raised (bare_equals_wrapped). Closed under the global context. The tie builds nested Solvers in /repo (shared sub-solvers "
         "placed several times, partial exposure, and a stream that edits a shared sub-solver between two solves of the parent) and "
         "compares the observed top-level matrix with both the nested model and the flat model."
-        " Further streams: sub-solvers built with hand-named plus auto-raised pins (pin names shared between structures), and a placed sub-solver that exposes one more pin afterwards (the parent must answer as before). Sub-solvers may expose their pins under names that are a cyclic shift of the inner pin names, and may be wired at placement by name (SUB.put(name, (structure, pin))).",
+        " Further streams: sub-solvers built with hand-named plus auto-raised pins (pin names shared between structures), and a placed sub-solver that exposes one more pin afterwards (the parent must answer as before). Sub-solvers may expose their pins under names that are a cyclic shift of the inner pin names, and may be wired at placement by name (SUB.put(name, (structure, pin))). A child all of whose ports are exposed may be raised in one Structure.raise_pins(pino=[...]) call; exposure names may be declared against alphabetical order.",
    note="Trusted: Coq kernel + vm_compute; Bignums primitives for the executed instance; model tied by sampled correspondence; harness "
         "(resolution of pin names to leaf pins is done by the harness; name handling is C16's subject). Conditional on the model returning Ok.",
    technique="Coq proof (induction over arbitrary nesting) + vm_compute correspondence nested-vs-flat-vs-implementation", design="§5 C02"),
@@ -236,7 +236,7 @@ CHECKS = {
         "lossless premise); all reciprocal => the result is symmetric. Proved at network level (a flux that cancels over each connection "
         "and has a sign over each component) and transferred to the solved matrix via solve_sound + solve_complete. Closed under the global "
         "context. The tie runs /repo on circuits of exactly unitary (Cayley transform), contractive and symmetric rational components and "
-        "lets Coq check, in exact arithmetic, agreement with the model AND T^H T = I / T = T^T / |Tu|^2 <= |u|^2 on the observed matrices. 30 % of the circuits declare a random subset (>= 2 structures where possible) as monitors before solving.",
+        "lets Coq check, in exact arithmetic, agreement with the model AND T^H T = I / T = T^T / |Tu|^2 <= |u|^2 on the observed matrices. 30 % of the circuits declare a random subset (>= 2 structures where possible) as monitors before solving. 30 % of the circuits are built in two steps (all links but one, a solve, then the last link).",
    note="Trusted: Coq kernel + vm_compute; Bignums primitives for the executed instance; model tied by sampled correspondence; harness. "
         "Conditional on the model returning Ok. /repo receives the binary64 roundings of the exact rational components.",
    technique="Coq proof (network-level flux balance, all circuits) + vm_compute correspondence and oracle checks on observed matrices", design="§5 C08"),
@@ -246,7 +246,7 @@ CHECKS = {
         "solution by back-substitution), and that two declarations of the same circuit (components permuted, connections permuted and "
         "flipped, exposure permuted) yield the same coefficients (declaration_independent). Closed under the global context. The tie "
         "forces EVERY valid merge sequence of circuits with up to 4 (quick) / 5 (thorough) structures through a guarded hook in "
-        "Solver.solve and compares each with the model run on the same sequence; declarations are permuted in both construction styles.",
+        "Solver.solve and compares each with the model run on the same sequence; declarations are permuted in both construction styles. 30 % of the declaration-permutation cases declare part of the circuit as monitors (another elimination order, the library's own pick).",
    note="Trusted: Coq kernel + vm_compute; Bignums primitives for the executed instance; model tied by sampled correspondence; the hook "
         "commit in /repo (add-only, guarded by LEKKERSIM_VERIF); harness. Conditional on both schedules being defined (inner systems invertible).",
    technique="Coq proof (all netlists, all schedule pairs) + exhaustive schedule forcing on small circuits vs model", design="§5 C03"),
@@ -258,7 +258,7 @@ CHECKS = {
         "the global context. The same definitions run under vm_compute against Solver.solve of /repo on random reflective, "
         "non-reciprocal, lossy, multi-link, partially exposed circuits built through the public API in both styles, with scrambled pin "
         "index maps; Coq compares every coefficient between exposed pins within 1e-9."
-        " The streams also map an external name twice (the last mapping counts) and link one pair of structures by 2-4 links in permuted pin order. Components are Models or bare Structures carrying their own matrix. Malformed netlists also give an occupied pin a second link (both building styles); placements may wire at once through Model.put(pin, (structure, pin)) with pins by name or as Pin objects. On every run harness/translate_join.py also translates the CURRENT source of the index bookkeeping around the star product (Structure.sel_output / sel_input / split_in_out / get_S_back) to Gallina and coq/templates/JoinSrcProof.v proves it equal to Solve.part / Solve.assemble / positions in ins ++ outs / Solve.keep for all matrices and pin lists (5 theorems, closed under the global context).",
+        " The streams also map an external name twice (the last mapping counts) and link one pair of structures by 2-4 links in permuted pin order. Components are Models or bare Structures carrying their own matrix. Malformed netlists also give an occupied pin a second link (both building styles); placements may wire at once through Model.put(pin, (structure, pin)) with pins by name or as Pin objects. On every run harness/translate_join.py also translates the CURRENT source of the index bookkeeping around the star product (Structure.sel_output / sel_input / split_in_out / get_S_back) to Gallina and coq/templates/JoinSrcProof.v proves it equal to Solve.part / Solve.assemble / positions in ins ++ outs / Solve.keep for all matrices and pin lists (5 theorems, closed under the global context). Several pins of one component may be exposed in one Structure.raise_pins(pins, names) call listed against declaration order.",
    note="Trusted: Coq kernel + vm_compute; Bignums/Uint63 primitives for the executed instance only; hand-written model tied by sampled "
         "correspondence; harness. Theorems conditional on the model returning Ok (all inner systems met by the schedule invertible). "
         "The model follows the fixed code (F01: self-connections are rejected).",
@@ -270,7 +270,7 @@ CHECKS = {
         "dimensions, is slice-wise when batched, and that int_complete returns amplitudes satisfying both components' equations. "
         "All closed under the global context. The same Gallina definitions, instantiated with Gaussian rationals (bigQ), are run "
         "by vm_compute against S_matrix.add/int_complete of /repo on generated reflective blocks (incl. zero dimensions, batches, "
-        "broadcast, mismatches); Coq decides agreement within 1e-9 in exact arithmetic. Half of the unbatched cases fill the S_matrix blocks in place after construction (complex dtype of the allocated blocks). On every run harness/translate_kernel.py also translates the CURRENT source of S_matrix.__init__/add/int_complete to Gallina (shape inference, fail-closed) and coq/templates/KernelSrcProof.v proves the translated source equal to Kernel.sadd / Kernel.int_complete for all operands (add_src_is_sadd, int_complete_src_is_model; closed under the global context): for the kernel the tie is not only sampled.",
+        "broadcast, mismatches); Coq decides agreement within 1e-9 in exact arithmetic. Half of the unbatched cases fill the S_matrix blocks in place after construction (complex dtype of the allocated blocks). On every run harness/translate_kernel.py also translates the CURRENT source of S_matrix.__init__/add/int_complete to Gallina (shape inference, fail-closed) and coq/templates/KernelSrcProof.v proves the translated source equal to Kernel.sadd / Kernel.int_complete for all operands (add_src_is_sadd, int_complete_src_is_model; closed under the global context): for the kernel the tie is not only sampled. The add stream contains structured zeros (the product of the facing reflections vanishes in one order only).",
    note="Trusted: Coq kernel + vm_compute; Bignums/Uint63 primitives (only for the executed instance BQCf, not for the theorems); "
         "hand-written model tied by sampled correspondence; harness (generators, float->dyadic transport, emitter, parser). "
         "Theorems are conditional on the model returning Ok (inner systems invertible). numpy is exercised, not verified.",
